@@ -27,6 +27,7 @@ RInit == Init /\\ log = <<>>
 RNext == \\/ \\E f \\in Formulas : Parse(1, f) /\\ log' = Append(log, [a |-> "parse", phi |-> f, cfg |-> ms[1].cfg])
          \\/ \\E c \\in Configs : Reconfigure(1, c) /\\ log' = Append(log, [a |-> "config", cfg |-> c])
          \\/ \\E f \\in Formulas : Reparse(1, f) /\\ log' = Append(log, [a |-> "reparse", phi |-> f])
+         \\/ \\E c \\in Configs : Retolerance(1, c) /\\ log' = Append(log, [a |-> "retol", cfg |-> c])
          \\/ PastifyA(1) /\\ log' = Append(log, [a |-> "pastify"])
          \\/ Repastify(1) /\\ log' = Append(log, [a |-> "pastify"])
          \\/ \\E s \\in Samples(ms[1].cfg.vars), g \\in Gaps :
@@ -98,7 +99,7 @@ def to_cases(behs, vars_, factories=("StlDiscreteTimeSpecification", "StlDiscret
         phi = b[0]["phi"]
         obj = dt_obj(phi, 1, list(vars_), factory=factories[i % len(factories)])
         c0 = b[0].get("cfg")
-        if c0 and (c0["tol"] != 0 or c0["M"]["sem"] != "standard"):
+        if c0 and (c0["tol"] != 0 or c0["period"] != 1 or c0["M"]["sem"] != "standard"):
             # created with another configuration than the default one
             obj.update({"mode": c0["M"], "set_io": True, "period": c0["period"], "tol": c0["tol"], "unit": "s",
                         "set_period": [c0["period"], "s", c0["tol"] / float(c0["period"])]})
@@ -112,6 +113,9 @@ def to_cases(behs, vars_, factories=("StlDiscreteTimeSpecification", "StlDiscret
                 evs.append({"o": 1, "a": "reset"})
             elif e["a"] == "reparse":
                 evs.append({"o": 1, "a": "reparse", "phi": e["phi"], "text": "out = " + to_text(e["phi"], 1)})
+            elif e["a"] == "retol":
+                c = e["cfg"]
+                evs.append({"o": 1, "a": "config", "set_period": [c["period"], "s", c["tol"] / float(c["period"])], "period": c["period"], "tol": c["tol"]})
             elif e["a"] == "config":
                 # Reconfigure: set_sampling_period() with the new tolerance, set_var_io_type() of every variable and parse() again
                 c = e["cfg"]
